@@ -4,11 +4,11 @@ patch=$1; shift
 cd /repo || exit 3
 if ! git diff --quiet; then echo "repo dirty"; exit 3; fi
 if ! git apply --check "$patch" 2>/dev/null; then
-  if git apply --3way "$patch" 2>/dev/null; then git reset -q; else echo "PATCH DOES NOT APPLY: $patch"; git checkout -- . ; exit 3; fi
+  if git apply --3way "$patch" 2>/dev/null; then git reset -q; else echo "PATCH DOES NOT APPLY: $patch"; git reset -q --hard HEAD; exit 3; fi
 else git apply "$patch"; fi
 for id in "$@"; do
   out=$(cd /verif && VERIF_SEED=${VERIF_SEED:-1} ./run $id ${TIER:-quick} 2>&1); rc=$?
   echo "== $id rc=$rc $(echo "$out" | grep -c '^VIOLATION') violations; first: $(echo "$out" | grep -m1 '^VIOLATION' | cut -c1-300)"
   [ $rc -eq 2 ] && echo "$out" | tail -3
 done
-git -C /repo checkout -- . ; git -C /repo clean -fdq
+git -C /repo reset -q --hard HEAD; git -C /repo clean -fdq
